@@ -1,6 +1,7 @@
 import Pymeeus.Refine.UtcReadback
 import Pymeeus.Refine.LeapAny
 import Pymeeus.Refine.LocalPath
+import Pymeeus.Refine.DeltaT
 /-
 C10 — UTC <-> TT offset follows the IERS leap-second history and inverts.
 
@@ -253,7 +254,127 @@ theorem get_date_local_false_counterexample :
   refine ⟨get_date_local_zero _ false, ?_⟩
   decide +kernel
 
+/-! ### Delta-T against the published polynomial expressions -/
+
+/-- `Epoch.tt2ut(year, month)` is, for EVERY year and month, the Espenak–Meeus expression (Spec/DeltaT.lean, written from
+    the publication in power form) of the segment the calendar year falls in — each of the 14 switch-over years belongs to
+    the later segment — evaluated at `dtArg year month` (next two theorems). -/
+theorem deltaT_is_espenak_meeus (year month : Int) : tt2ut year month = Spec.deltaT year (dtArg year month) :=
+  tt2ut_eq_spec year month
+
+/-- in −500 … 499 and 1600 … 2149 the polynomial is evaluated at the publication's decimal year y = year + (month − 0.5)/12 -/
+theorem deltaT_argument_published (year month : Int) (h : (-500 ≤ year ∧ year < 500) ∨ (1600 ≤ year ∧ year < 2150)) :
+    tt2ut year month = Spec.deltaT year ((year : ℚ) + ((month : ℚ) - 1 / 2) / 12) := by
+  rw [deltaT_is_espenak_meeus]
+  have : ¬ (year < -500 ∨ (500 ≤ year ∧ year < 1600) ∨ 2150 ≤ year) := by omega
+  simp only [dtArg, this, if_false]
+
+/-- before −500, in 500 … 1599 and from 2150 on the code evaluates the polynomial at the INTEGER year (the publication
+    uses the decimal year there too): `tt2ut` does not depend on the month in those years.  Stated as coded. -/
+theorem deltaT_argument_integer_year (year month month' : Int) (h : year < -500 ∨ (500 ≤ year ∧ year < 1600) ∨ 2150 ≤ year) :
+    tt2ut year month = Spec.deltaT year (year : ℚ) ∧ tt2ut year month = tt2ut year month' := by
+  rw [deltaT_is_espenak_meeus, deltaT_is_espenak_meeus]
+  simp only [dtArg, h, if_true, and_self]
+
+/-- the boundary years themselves: 2050 is on the 2050–2150 expression (not the 2005–2050 quadratic), 2005 on the quadratic,
+    1600 on the cubic in (y − 1600), −500 on the sixth-degree polynomial -/
+theorem deltaT_boundary_years (month : Int) :
+    tt2ut 2050 month = (-20) + 32 * (((2050 : ℚ) + ((month : ℚ) - 1 / 2) / 12 - 1820) / 100) ^ 2
+        - 0.5628 * (2150 - ((2050 : ℚ) + ((month : ℚ) - 1 / 2) / 12)) ∧
+    tt2ut 2005 month = 62.92 + 0.32217 * ((2005 : ℚ) + ((month : ℚ) - 1 / 2) / 12 - 2000)
+        + 0.005589 * ((2005 : ℚ) + ((month : ℚ) - 1 / 2) / 12 - 2000) ^ 2 ∧
+    tt2ut 2150 month = (-20) + 32 * (((2150 : ℚ) - 1820) / 100) ^ 2 := by
+  refine ⟨?_, ?_, ?_⟩
+  · rw [deltaT_argument_published 2050 month (by omega)]; simp [Spec.deltaT]
+  · rw [deltaT_argument_published 2005 month (by omega)]; simp [Spec.deltaT]
+  · rw [(deltaT_argument_integer_year 2150 month month (by omega)).1]; simp [Spec.deltaT]
+
+/-! ### kwargs of `get_date` -/
+
+/-- `get_date(utc=False)` and `get_date()` are the plain read-back (no offset, whatever the year) -/
+theorem get_date_utc_false_or_absent (j : ℚ) :
+    get_date_kw j (some false) none = get_date j ∧ get_date_kw j none none = get_date j := by
+  constructor <;>
+  · unfold get_date_kw
+    cases get_date j with
+    | error e => rfl
+    | ok t =>
+      obtain ⟨y, m, d⟩ := t
+      simp [get_date_deltasec, peq_zero]
+
+/-- the 1972 gate of the constructor is the YEAR, not the leap-second count: January 1972 (count 0) already gets
+    42.184 s, December 1971 gets nothing -/
+theorem utc_gate_is_the_year :
+    epoch_set_kw 1972 1 1 0 0 0 (some true) none = .ok (compute_jde 1972 1 1 + 42.184 / 86400) ∧
+    epoch_set_kw 1971 12 31 0 0 0 (some true) none = .ok (compute_jde 1971 12 31) := by
+  decide +kernel
+
+/-- the leap-second table as the model carries it: 27 entries, keys strictly increasing (so `sorted()` is the identity),
+    the k-th value is k, and the keys are the IERS dates (1 January = y, 1 July = y + 1/2) -/
+theorem table_shape :
+    leap_table.length = 27 ∧ leap_years.Pairwise (· < ·) ∧ leap_values = (List.range 27).map (fun k => (k : Int) + 1) ∧
+    leap_years = iersDates.map iersKey := by
+  refine ⟨by decide, by decide +kernel, by decide, leap_years_eq_keys⟩
+
+/-- "… and by nothing before 1972", read-back direction: an instant whose TT date is before 1972 reads back unchanged
+    with `utc=True` (every valid date, every time of day) -/
+theorem readback_utc_before_1972 (y m d : Int) (f : ℚ) (h : Valid y m d) (hy : y < 1972) (hf0 : 0 ≤ f) (hf1 : f < 1) :
+    get_date_kw (compute_jde y m ((d : ℚ) + f)) (some true) none = .ok (y, m, (d : ℚ) + f) := by
+  unfold get_date_kw
+  rw [compute_jde_frac y m d f hf0 hf1 h, get_date_valid y m d f h hf0 hf1]
+  have hy' : ¬ y ≥ 1972 := by omega
+  simp [get_date_deltasec, hy', peq_zero]
+
+/-- `get_last_leap_second()` for ANY table: a last entry at a whole year `Y` names 31 December of `Y − 1`, a last entry
+    at `Y + 1/2` names 30 June of `Y` (the day the leap second closes), with the table's last count -/
+theorem last_leap_second_any_table (Y v : Int) :
+    get_last_leap_second_of (Y : ℚ) v = (Y - 1, 12, 31, v) ∧
+    get_last_leap_second_of ((Y : ℚ) + 1 / 2) v = (Y, 6, 30, v) := by
+  unfold get_last_leap_second_of
+  have f1 : pfloor (Y : ℚ) = Y := by rw [pfloor_eq_floor, Int.floor_intCast]
+  have f2 : pfloor ((Y : ℚ) + 1 / 2) = Y := by
+    rw [pfloor_eq_floor, Int.floor_eq_iff]; constructor <;> norm_num
+  have m1 : pmod (Y : ℚ) 1.0 = 0 := by rw [pmod_one, Int.fract_intCast]
+  have m2 : pmod ((Y : ℚ) + 1 / 2) 1.0 = 1 / 2 := by
+    rw [pmod_one]; unfold Int.fract
+    have : ⌊(Y : ℚ) + 1 / 2⌋ = Y := by rw [Int.floor_eq_iff]; constructor <;> norm_num
+    rw [this]; ring
+  have p1 : peq (0 : ℚ) 0.0 = true := by decide +kernel
+  have p2 : peq (1 / 2 : ℚ) 0.0 = false := by decide +kernel
+  constructor
+  · simp only [f1, m1, p1, if_true]; norm_num
+  · simp only [f2, m2, p2, Bool.false_eq_true, if_false]; norm_num
+
+/-- the constructor refuses, with ValueError and whatever the kwargs, a time of day outside 0 ≤ h < 24, 0 ≤ min < 60,
+    0 ≤ s < 60 — in particular the label 23:59:60 of a leap second itself cannot be entered -/
+theorem refuses_time_fields_out_of_range (y m : Int) (d h mi s : ℚ) (utc : Option Bool) (lsec : Option ℚ)
+    (hbad : h < 0 ∨ 24 ≤ h ∨ mi < 0 ∨ 60 ≤ mi ∨ s < 0 ∨ 60 ≤ s) :
+    epoch_set_kw y m d h mi s utc lsec = .error .valueError := by
+  have hc : check_values y (get_month_int m) d h mi s = .error .valueError := by
+    unfold check_values
+    by_cases c0 : y < -4712
+    · simp only [c0, if_true]
+    by_cases c1 : (plt d 1 || ple 32 d) = true
+    · simp only [c0, c1, if_true, if_false]
+    by_cases c2 : (plt h 0 || ple 24 h) = true
+    · simp [c0, c1, c2]
+    by_cases c3 : (plt mi 0 || ple 60 mi) = true
+    · simp [c0, c1, c2, c3]
+    by_cases c4 : (plt s 0 || ple 60 s) = true
+    · simp [c0, c1, c2, c3, c4]
+    exfalso
+    simp only [plt, ple, Bool.or_eq_true, decide_eq_true_eq, not_or, not_lt, not_le] at c2 c3 c4
+    rcases hbad with hb | hb | hb | hb | hb | hb <;> linarith [c2.1, c2.2, c3.1, c3.2, c4.1, c4.2]
+  unfold epoch_set_kw
+  rw [hc]
+
+theorem leap_second_label_refused : epoch_set_kw 2016 12 31 23 59 60 (some true) none = .error .valueError :=
+  refuses_time_fields_out_of_range _ _ _ _ _ _ _ _ (by norm_num)
+
 -- Non-vacuity: the hypotheses are met by concrete inputs.
+example : Valid 1971 12 31 ∧ (1971 : Int) < 1972 := by decide
+example : ((-500 : Int) ≤ 2050 ∧ (2050 : Int) < 500) ∨ ((1600 : Int) ≤ 2050 ∧ (2050 : Int) < 2150) := by decide
+example : dtArg 1000 3 = 1000 ∧ dtArg 2000 1 = 2000 + 1 / 24 := by constructor <;> norm_num [dtArg]
 example : epoch_set_kw 2016 12 31 23 59 59 none none = .ok (compute_jde 2016 12 (31 + (23 / 24 + 59 / 1440 + 59 / 86400)) + 0) := by
   decide +kernel
 example : iers 2016 12 = 26 ∧ iers 2017 1 = 27 ∧ iers 1972 1 = 0 ∧ iers 1999 12 = 22 := by decide
